@@ -21,7 +21,10 @@ MODEL_RUNNER = os.path.join(CACHE, "ocaml", "model_runner")
 NPROC = os.cpu_count() or 4
 
 ENV = dict(os.environ)
-ENV.update({"CARGO_NET_OFFLINE": "true", "RUST_BACKTRACE": "0", "CARGO_TARGET_DIR": TARGET})
+ENV.update({"CARGO_NET_OFFLINE": "true", "RUST_BACKTRACE": "0", "CARGO_TARGET_DIR": TARGET,
+            # dev profile (overflow checks and debug assertions stay on) but optimised enough that
+            # thousands of process start-ups (each translates the embedded std library) stay cheap
+            "CARGO_PROFILE_DEV_OPT_LEVEL": "2", "CARGO_PROFILE_DEV_DEBUG": "false"})
 
 
 def log(*a):
@@ -245,7 +248,7 @@ def run_lines(binary_args, lines, shards=None, timeout=900):
     """Feed lines to `binary_args` over stdin in parallel shards; returns output lines in order."""
     if not lines:
         return []
-    shards = shards or min(NPROC, max(1, len(lines) // 200))
+    shards = shards or min(NPROC, max(1, len(lines) // 4))
     n = len(lines)
     per = (n + shards - 1) // shards
     procs = []
